@@ -226,13 +226,6 @@ impl Compactor {
                 #[cfg(risinglight_verif)]
                 crate::verif::yield_point("compactor.wake", &[]).await;
                 let tables = self.storage.tables.read().clone();
-                let pin_version = self.storage.version.pin();
-                #[cfg(risinglight_verif)]
-                crate::verif::yield_point(
-                    "compactor.pinned",
-                    &[("epoch", pin_version.epoch as i64)],
-                )
-                .await;
                 for (_, table) in tables {
                     #[cfg(risinglight_verif)]
                     crate::verif::yield_point(
@@ -244,9 +237,20 @@ impl Compactor {
                         .storage
                         .txn_mgr
                         .try_lock_for_compaction(table.table_id())
-                        && let Err(err) = self.compact_table(&pin_version.snapshot, table).await
                     {
-                        warn!("failed to compact: {:?}", err);
+                        // Pin the version only after the table lock is held. A snapshot taken
+                        // before the lock may miss a deletion that committed in between, and
+                        // the compaction would then write the deleted rows back.
+                        let pin_version = self.storage.version.pin();
+                        #[cfg(risinglight_verif)]
+                        crate::verif::yield_point(
+                            "compactor.pinned",
+                            &[("epoch", pin_version.epoch as i64)],
+                        )
+                        .await;
+                        if let Err(err) = self.compact_table(&pin_version.snapshot, table).await {
+                            warn!("failed to compact: {:?}", err);
+                        }
                     }
                 }
                 #[cfg(risinglight_verif)]
